@@ -10,6 +10,9 @@ import space
 def run(res, replay=None):
     # structural tie of phasegen/rewards.py: translate the CURRENT source and re-check proofs/GenRewardsEquiv.v against it
     import translate_step; (res.proof is not None) and translate_step.run(res.proof, pid=res.pid, tie='rewards')
+    # structural ties of _accumulate (loops) and accumulate / moment (moments): the source-level conservation theorems are about the generated functions
+    import translate_step; (res.proof is not None) and translate_step.run(res.proof, pid=res.pid, tie='loops')
+    import translate_step; (res.proof is not None) and translate_step.run(res.proof, pid=res.pid, tie='moments')
     rng = random.Random(res.seed)
     res.rule = ('identities stream: random single-locus configurations (n<=5, 1-2 demes, three models, 1-3 epochs, with/'
                 'without end time): sum of SFS = branch length, size-weighted sum = n * height, folded = fold(unfolded), '
